@@ -128,6 +128,10 @@ Accepts(sig, key, rrset, sigok) == PreChecks(sig, key, rrset) /\ sigok
 IsWildcard(name) == Len(name) >= 1 /\ name[1] = Star
 LabelsField(name) == Len(name) - (IF IsWildcard(name) THEN 1 ELSE 0)
 
+(* req is the RRSIG value as it is handed to Sign, fresh or not: of an earlier  *)
+(* use (Sign on another RRset: its owner, class, covered type, Labels,          *)
+(* signature) nothing but a non-zero Original TTL may show in the result --     *)
+(* owner, class, covered type and Labels are ALWAYS those of this RRset.        *)
 Zero4 == <<0, 0, 0, 0>>
 SignFills(req, rrset) ==       \* req: the fields the caller set before Sign (f as in sig)
   [owner |-> rrset[1].name, class |-> rrset[1].class,
